@@ -2,7 +2,7 @@ import json,sys
 sys.path.insert(0,'/verif')
 from vlib import core
 ctx=core.Ctx('DBG')
-ctx.inject('internal/upload'); ctx.instrument('-files','internal/upload')
+ctx.inject('internal/upload', also=('c08_verif_test.go',)); ctx.instrument('-files','internal/upload')
 run=json.loads(sys.argv[1])
 recs,rc,out=ctx.run_harness('./internal/upload','TestVerifC08',inp={'runs':[run]})
 def fs(d): return {k:(v['st'][0]+('C' if v.get('complete') else 'i')+str(v.get('by',''))+str(v.get('files','')) if v['st']=='file' else '-') for k,v in d.items()}
